@@ -54,6 +54,7 @@ type Ev struct {
 	Lim        int      `json:"lim"`
 	Kinds      []string `json:"kinds"`
 	Note       string   `json:"note"`
+	Tok        int      `json:"tok"` // CbB of a read: sequence number of the unit delivered (byte, connection, datagram)
 }
 
 func errClass(err error) (string, string) {
@@ -93,6 +94,8 @@ type object struct {
 	path   string
 	inR    int // op id in flight per direction (driver's own ledger), 0 = none
 	inW    int
+	sent   int         // units queued by the peer so far (the k-th unit carries token k)
+	ports  map[int]int // lst: local port of the k-th dialled connection -> k
 }
 
 type opinfo struct {
@@ -358,11 +361,11 @@ func (d *drv) runKey(key string) {
 	}
 }
 
-func (d *drv) opCb(op int) func(error, int) {
-	return func(err error, n int) {
+func (d *drv) opCb(op int) func(error, int, int) {
+	return func(err error, n int, tok int) {
 		cls, note := errClass(err)
 		d.depth++
-		d.emit(Ev{Ev: "CbB", Op: op, Err: cls, N: n, Depth: d.depth, Note: note})
+		d.emit(Ev{Ev: "CbB", Op: op, Err: cls, N: n, Depth: d.depth, Note: note, Tok: tok})
 		if oi := d.ops[op]; oi != nil && !oi.done {
 			oi.done = true
 			ob := d.objs[oi.o-1]
@@ -402,39 +405,64 @@ func (d *drv) exec(c Ev) {
 		cb := d.opCb(c.Op)
 		switch c.Api {
 		case "read":
-			ob.file.AsyncRead(d.buf(1), cb)
+			b := d.buf(1)
+			ob.file.AsyncRead(b, func(err error, n int) {
+				tok := 0
+				if err == nil && n > 0 {
+					tok = int(b[0])
+				}
+				cb(err, n, tok)
+			})
 		case "write":
 			b := d.buf(1)
 			ob.tok++
 			b[0] = ob.tok
-			ob.file.AsyncWrite(b, cb)
+			ob.file.AsyncWrite(b, func(err error, n int) { cb(err, n, 0) })
 		case "accept":
 			ob.lst.AsyncAccept(func(err error, conn sonic.Conn) {
-				n := 0
+				n, tok := 0, 0
 				if err == nil && conn != nil {
 					n = 1
+					if ta, ok := conn.RemoteAddr().(*net.TCPAddr); ok {
+						tok = ob.ports[ta.Port]
+					}
 					defer conn.Close()
 				}
-				cb(err, n)
+				cb(err, n, tok)
 			})
 		case "readfrom":
 			if ob.mcp != nil {
-				ob.mcp.AsyncRead(d.buf(8), func(err error, n int, _ netip.AddrPort) { cb(err, n) })
+				b := d.buf(8)
+				ob.mcp.AsyncRead(b, func(err error, n int, _ netip.AddrPort) {
+					tok := 0
+					if err == nil && n > 0 {
+						tok = int(b[0])
+					}
+					cb(err, n, tok)
+				})
 			} else {
-				ob.pkt.AsyncReadFrom(d.buf(8), func(err error, n int, _ net.Addr) { cb(err, n) })
+				b := d.buf(8)
+				ob.pkt.AsyncReadFrom(b, func(err error, n int, _ net.Addr) {
+					tok := 0
+					if err == nil && n > 0 {
+						tok = int(b[0])
+					}
+					cb(err, n, tok)
+				})
 			}
 		case "writeto":
 			b := d.buf(1)
 			b[0] = 7
 			if ob.mcp != nil {
-				ob.mcp.AsyncWrite(b, netip.AddrPortFrom(netip.AddrFrom4([4]byte{127, 0, 0, 1}), uint16(d.sinkPort())), cb)
+				ob.mcp.AsyncWrite(b, netip.AddrPortFrom(netip.AddrFrom4([4]byte{127, 0, 0, 1}), uint16(d.sinkPort())),
+					func(err error, n int) { cb(err, n, 0) })
 			} else {
 				ob.pkt.AsyncWriteTo(b, &net.UDPAddr{IP: net.IPv4(127, 0, 0, 1), Port: d.sinkPort()}, func(err error) {
 					n := 0
 					if err == nil {
 						n = 1
 					}
-					cb(err, n)
+					cb(err, n, 0)
 				})
 			}
 		default:
@@ -609,8 +637,8 @@ func (d *drv) env(what string, oi int, n int) {
 		switch ob.kind {
 		case "sock", "adp", "pipeR", "reg":
 			if ob.peer >= 0 {
-				ob.tok++
-				if _, err := syscall.Write(ob.peer, []byte{ob.tok}); err != nil {
+				ob.sent++
+				if _, err := syscall.Write(ob.peer, []byte{byte(ob.sent)}); err != nil {
 					note = "write: " + err.Error()
 				}
 			}
@@ -619,10 +647,16 @@ func (d *drv) env(what string, oi int, n int) {
 			if err != nil {
 				note = "dial: " + err.Error()
 			} else {
+				ob.sent++
+				if ob.ports == nil {
+					ob.ports = map[int]int{}
+				}
+				ob.ports[c.LocalAddr().(*net.TCPAddr).Port] = ob.sent
 				c.Close()
 			}
 		case "pkt", "mcp":
-			if err := syscall.Sendto(ob.peer, []byte{9}, 0, &syscall.SockaddrInet4{Port: ob.port, Addr: [4]byte{127, 0, 0, 1}}); err != nil {
+			ob.sent++
+			if err := syscall.Sendto(ob.peer, []byte{byte(ob.sent)}, 0, &syscall.SockaddrInet4{Port: ob.port, Addr: [4]byte{127, 0, 0, 1}}); err != nil {
 				note = "sendto: " + err.Error()
 			}
 		}
